@@ -1,3 +1,7 @@
 import AtreeProofs.StorageLemmas
 import AtreeProofs.Props.C14
 import AtreeProofs.Props.C15
+import AtreeProofs.ArrayInv
+import AtreeProofs.ArrayLemmas
+import AtreeProofs.Props.C01
+import AtreeProofs.Props.C05
